@@ -245,7 +245,7 @@ def build_one(ctx, name, src, cfgname, extra_flags=(), allow_fail=False, timeout
     if r.returncode != 0:
         if allow_fail:
             with open(ctx.path("compile_fail", cfgname, name + ".log"), "w") as f:
-                f.write(r.stderr[-20000:])
+                f.write(r.stderr[:8000] + "\n...\n" + r.stderr[-12000:])
             open(binp + ".fail", "w").close()
             return None
         with open(ctx.path("compile_fail", cfgname, name + ".log"), "w") as f:
@@ -413,7 +413,7 @@ def write_replay(ctx, rej):
     p = os.path.join(d, name + ".json")
     with open(p, "w") as f:
         json.dump({"property": ctx.prop, "case": rej["case"], "cfg": rej.get("cfg", ""), "tier": ctx.tier, "seed": ctx.seed,
-                   "line": rej["line"], "rejected_event": rej["event"]}, f)
+                   "line": rej["line"], "tag": rej.get("tag", ""), "rejected_event": rej["event"]}, f)
     return p
 
 
